@@ -91,7 +91,8 @@ def c03(tier='quick', seed=0):
     from oslo_policy import policy, _checks
     R = Result('unknown names and the default rule', 'all rule sets over names {a, b, default} with bodies from {@, !, role:x, '
                'rule:b}, all default-rule configurations (unset, defined name, undefined name, check object; constructor '
-               'or option), all queried names, role sets {} and {x}; complete for this space')
+               'or option), all queried names, role sets {} and {x}; complete for this space; plus two-step histories '
+               '(store installed through set_rules, then the default rule redefined by a non-overwriting update)')
     R.d['exhaustive'] = True
     bodies = ['@', '!', 'role:x', 'rule:b']
     names = ['a', 'b', 'default']
@@ -132,6 +133,28 @@ def c03(tier='quick', seed=0):
                     R.case(key, bad, sample={'rules': rules_text, 'default': dcfg, 'query': q, 'roles': list(roles), 'decision': want})
                     if R.full:
                         return R.d
+                    if dchk is not None or not rules_text:
+                        continue
+                    # histories: the same store installed through set_rules(), then the default rule redefined (or
+                    # defined for the first time) by a non-overwriting update: the CURRENT definition decides
+                    e.set_rules(policy.Rules.from_dict(rules_text), overwrite=True, use_conf=False)
+                    for nb in ('@', '!'):
+                        if rules_text.get(default_name) == nb:
+                            continue
+                        e.set_rules(policy.Rules.from_dict({default_name: nb}), overwrite=False, use_conf=False)
+                        now = dict(rules_text, **{default_name: nb})
+                        try:
+                            want2 = ref_decide(now, dflt, q, roles)
+                        except RecursionError:
+                            continue
+                        got2 = outcome(e.enforce, q, {}, {'roles': list(roles)})
+                        bad2 = None
+                        if got2[0] != 'ret' or bool(got2[1]) != want2:
+                            bad2 = 'set_rules(%r) then set_rules({%r: %r}, overwrite=False): default=%s enforce(%r, roles=%r) ' \
+                                   'gave %r, expected %r' % (rules_text, default_name, nb, dcfg, q, list(roles), got2[1:], want2)
+                        R.case(key + ('then', nb), bad2)
+                        if R.full:
+                            return R.d
     return R.d
 
 
